@@ -4,6 +4,8 @@ import importlib
 MODULES = [
     "externals",
     "process_executor",
+    "context",
+    "properties",
 ]
 
 
